@@ -115,6 +115,11 @@ func corpusMain(stream string) {
 			{Name: "Extra", BasePath: &x, Methods: []*j5sgen.Method{{Name: "More", Verb: "put", Path: "/more"}}}}
 		e.Summaries = []*j5sgen.Summary{{Props: []*j5sgen.Prop{prop("name", fld(j5sgen.FString))}}, {Name: "Brief", Props: []*j5sgen.Prop{prop("nm", fld(j5sgen.FString))}}}
 		fmt.Println(compileOpLine("entity", onePkg("foo.v1", j5sFile("foo/v1/e.j5s", entityEl(e))), "foo.v1", ""))
+	case "total":
+		// inputs outside the language that must be rejected (b6c593a, cf01603)
+		for _, nc := range negCases {
+			fmt.Println(negOp(nc, 0))
+		}
 	case "evolve":
 		// empty enum + appended option ending in UNSPECIFIED (50e59b3)
 		b := onePkg("foo.v1", j5sFile("foo/v1/a.j5s", enumEl("Bar", ""), obj("Foo", prop("a", fld(j5sgen.FString)))))
